@@ -200,6 +200,9 @@ def option_record(draw, name, mode):
                 default = draw(list_lines(typ, 1, 1))
             elif state.endswith("dmany"):
                 default = draw(list_lines(typ, 2, 3))
+                if draw(st.integers(0, 2)) == 0:
+                    # a default entry with an empty value, first or in the middle
+                    default[draw(st.integers(0, len(default) - 2))] = ""
     elif typ == "PortLines":
         if mode == "c10":
             k = draw(st.integers(0, 3))
